@@ -26,15 +26,20 @@ type Rewrite struct {
 }
 
 type Case struct {
-	Part     string      `json:"part"` // url | body | headers
-	Rewrite  Rewrite     `json:"rewrite"`
-	Slashes  string      `json:"allow_encoded_slashes"`
-	Method   string      `json:"method"`
-	Path     string      `json:"raw_path"`
-	Query    string      `json:"raw_query"`
-	BodySize int         `json:"body_size"`
-	Headers  [][2]string `json:"client_headers,omitempty"`
-	Peer     string      `json:"peer"`
+	Part     string  `json:"part"` // url | body | headers
+	Rewrite  Rewrite `json:"rewrite"`
+	Slashes  string  `json:"allow_encoded_slashes"`
+	Method   string  `json:"method"`
+	Path     string  `json:"raw_path"`
+	Query    string  `json:"raw_query"`
+	BodySize int     `json:"body_size"`
+	// BodyKind: "" = opaque octets of BodySize; otherwise a typed body (Content-Type set) that does or does not decode
+	BodyKind string `json:"body_kind,omitempty"`
+	Chunked  bool   `json:"chunked_transfer,omitempty"`
+	// ReadsBody: the rule's pipeline contains a step that reads Request.Body
+	ReadsBody bool        `json:"pipeline_reads_body,omitempty"`
+	Headers   [][2]string `json:"client_headers,omitempty"`
+	Peer      string      `json:"peer"`
 }
 
 const (
@@ -51,6 +56,10 @@ func catalogue() *config.MechanismPrototypes {
 				// a pipeline header may render to the empty string (e.g. a missing subject attribute): it still replaces the client's
 				"X-Groups": `{{ with .Subject.Attributes.groups }}{{ . }}{{ end }}`,
 			}}},
+			// a step that looks at the (decoded) request body
+			{ID: "bodyreader", Type: "header", Config: config.MechanismConfig{"headers": map[string]any{
+				"X-Body-Seen": `{{ if .Request.Body }}yes{{ else }}no{{ end }}`,
+			}}},
 		},
 	}
 }
@@ -59,7 +68,7 @@ type fixture struct {
 	apps *hx.Apps
 }
 
-func newFixture(rw Rewrite, slashes string, withPipelineHeaders bool) (*fixture, error) {
+func newFixture(rw Rewrite, slashes string, withPipelineHeaders bool, readsBody ...bool) (*fixture, error) {
 	mf, err := hx.RealFactory(catalogue())
 	if err != nil {
 		return nil, err
@@ -76,6 +85,10 @@ func newFixture(rw Rewrite, slashes string, withPipelineHeaders bool) (*fixture,
 		exec := []config.MechanismConfig{{"authenticator": "anon"}}
 		if withPipelineHeaders {
 			exec = append(exec, config.MechanismConfig{"finalizer": "hdrs"})
+		}
+
+		if len(readsBody) != 0 && readsBody[0] {
+			exec = append(exec, config.MechanismConfig{"finalizer": "bodyreader"})
 		}
 
 		r := rulecfg.Rule{
@@ -121,10 +134,34 @@ func body(n int) string {
 	return sb.String()[:n]
 }
 
+var typedBodies = map[string][2]string{
+	"json-valid":     {"application/json", `{"a":{"b":[1,2]}}`},
+	"json-truncated": {"application/json", `{"a":`},
+	"json-array":     {"application/json", `[1,2,3]`},
+	"form-valid":     {"application/x-www-form-urlencoded", `a=1&b=x%20y`},
+	"form-invalid":   {"application/x-www-form-urlencoded", `a=100%&b=2`},
+	"yaml-tabs":      {"application/yaml", "a:\n\t- b\n"},
+	"text":           {"text/plain", "just text"},
+}
+
+var typedBodyOrder = []string{"json-valid", "json-truncated", "json-array", "form-valid", "form-invalid", "yaml-tabs", "text"}
+
+func (cs *Case) bodyString() string {
+	if cs.BodyKind != "" {
+		return typedBodies[cs.BodyKind][1]
+	}
+
+	return body(cs.BodySize)
+}
+
 func (cs *Case) req() *hx.Req {
 	r := &hx.Req{Method: cs.Method, Scheme: "http", Host: "svc.local", RawPath: cs.Path, RawQuery: cs.Query, RemoteAddr: cs.Peer,
-		Body: body(cs.BodySize)}
+		Body: cs.bodyString(), Chunked: cs.Chunked}
 	r.Header = append(r.Header, cs.Headers...)
+
+	if cs.BodyKind != "" {
+		r.Header = append(r.Header, [2]string{"Content-Type", typedBodies[cs.BodyKind][0]})
+	}
 
 	return r
 }
@@ -202,7 +239,12 @@ func judge(c *engine.Ctx, f *fixture, cs *Case) {
 	}
 
 	if len(resp.Upstream) != 1 {
-		c.Violation("accepted-request-not-forwarded-exactly-once/"+cs.Part,
+		part := cs.Part
+		if cs.ReadsBody {
+			part += "/pipeline-reads-body/" + cs.BodyKind
+		}
+
+		c.Violation("accepted-request-not-forwarded-exactly-once/"+part,
 			fmt.Sprintf("%+v: status %d, upstream saw %d requests", *cs, resp.Status, len(resp.Upstream)), cs)
 
 		return
@@ -242,12 +284,12 @@ func judge(c *engine.Ctx, f *fixture, cs *Case) {
 		gp, _ := url.PathUnescape(gotPath)
 		wp, _ := url.PathUnescape(wantPath)
 
-		if gp != wp || strings.Contains(gotPath, "%25") {
+		if gp != wp || strings.Count(gotPath, "%25") > strings.Count(wantPath, "%25") {
 			c.Violation("upstream-path-wrong/"+feature(), fmt.Sprintf("%+v: upstream path %q, expected (decoded) %q", *cs, gotPath, wp), cs)
 		}
 	case gotPath != wantPath:
 		sig := "upstream-path-wrong/"
-		if strings.Contains(gotPath, "%25") {
+		if strings.Count(gotPath, "%25") > strings.Count(wantPath, "%25") {
 			sig = "upstream-path-double-encoded/"
 		}
 
@@ -270,8 +312,13 @@ func judge(c *engine.Ctx, f *fixture, cs *Case) {
 		c.Violation("upstream-method-changed", fmt.Sprintf("%+v: %s", *cs, up.Method), cs)
 	}
 
-	if string(up.Body) != body(cs.BodySize) {
-		c.Violation("upstream-body-changed", fmt.Sprintf("%+v: got %d bytes", *cs, len(up.Body)), cs)
+	if string(up.Body) != cs.bodyString() {
+		sig := "upstream-body-changed"
+		if cs.ReadsBody {
+			sig += "/pipeline-reads-body/" + cs.BodyKind
+		}
+
+		c.Violation(sig, fmt.Sprintf("%+v: got %d bytes %.40q", *cs, len(up.Body), up.Body), cs)
 	}
 
 	if cs.Part != "headers" {
@@ -351,7 +398,8 @@ func rewrites(quick bool) []Rewrite {
 }
 
 func paths(quick bool) []string {
-	segs := []string{"api", "v1", "a%20b", "%C3%A4", "x%2Fy", "~t", "%7Et", "o'neil", "(d)*!"}
+	// %2541, 100%25: an encoded percent sign; %5Bv%5D: escapes Go's URL type does not need a RawPath for
+	segs := []string{"api", "v1", "a%20b", "%C3%A4", "x%2Fy", "~t", "%7Et", "o'neil", "(d)*!", "%2541", "100%25", "%5Bv%5D"}
 
 	var out []string
 
@@ -393,7 +441,8 @@ func Check() *engine.Check {
 		Rule: "three full products through the real proxy handler chain, real httputil.ReverseProxy and a recording upstream on loopback: " +
 			"(url) request paths of 1-3 segments over {api,v1,a%20b,%C3%A4,x%2Fy,~t,%7Et} x 6 queries (repeated, encoded, empty-valued, " +
 			"semicolon) x every rewrite configuration (scheme x 5 strip prefixes x 3 add prefixes x 4 query removals) x encoded-slash settings; " +
-			"(body) 5 methods x bodies of 0/1/70 KiB x URLs x rewrites; (headers) pipeline headers X-User/Authorization/Host against all subsets of " +
+			"(body) 5 methods x bodies of 0/1/70 KiB x URLs x rewrites, and 4 methods x 7 typed bodies (JSON/form/YAML that decode or not, text) x " +
+			"known/unknown length x pipeline with/without a step reading Request.Body; (headers) pipeline headers X-User/Authorization/Host against all subsets of " +
 			"same-named client headers in 4 casings, single and repeated, and client-sent Forwarded/X-Forwarded-* from trusted and untrusted peers; " +
 			"oracle: reference rewrite on octets (strip then add on the escaped path, escapes byte-identical, no double encoding), query as decoded " +
 			"multiset minus removed names, method/body identical, exactly one field per pipeline header, no X-Forwarded-Method/-Uri/-Path, " +
@@ -522,6 +571,38 @@ func run(c *engine.Ctx) {
 		f.apps.Close()
 	}
 
+	// (body, typed): bodies that do and do not decode under their Content-Type, with and without a pipeline step reading the
+	// body, with known and unknown length: what the upstream receives is what the client sent
+	for _, reads := range []bool{false, true} {
+		idx++
+
+		if !c.Mine(idx) {
+			continue
+		}
+
+		f, err := newFixture(Rewrite{}, "off", false, reads)
+		if err != nil {
+			c.Infra("fixture: %v", err)
+
+			return
+		}
+
+		for _, m := range []string{"POST", "PUT", "PATCH", "DELETE"} {
+			for _, kind := range typedBodyOrder {
+				for _, chunked := range []bool{false, true} {
+					judge(c, f, &Case{Part: "body", Slashes: "off", Method: m, Path: "/api/v1", Query: "a=1", BodyKind: kind,
+						Chunked: chunked, ReadsBody: reads, Peer: untrustedPeer})
+				}
+			}
+
+			for _, n := range []int{1, 70 * 1024} {
+				judge(c, f, &Case{Part: "body", Slashes: "off", Method: m, Path: "/api/v1", BodySize: n, Chunked: true, ReadsBody: reads, Peer: untrustedPeer})
+			}
+		}
+
+		f.apps.Close()
+	}
+
 	// (headers)
 	hcs := headerCases()
 
@@ -577,7 +658,7 @@ func replay(c *engine.Ctx, raw json.RawMessage) {
 		return
 	}
 
-	f, err := newFixture(cs.Rewrite, cs.Slashes, cs.Part == "headers")
+	f, err := newFixture(cs.Rewrite, cs.Slashes, cs.Part == "headers", cs.ReadsBody)
 	if err != nil {
 		c.Infra("fixture: %v", err)
 
